@@ -85,6 +85,8 @@ def iterate(run):
 
 def o_c01(run):
     out = []
+    if run.kv.get('conc') == '1':
+        return out          # controlled-schedule runs are judged by the linearizability oracle (the prefilled versions were not accepted in this trace)
     for g, pd, praw, st in iterate(run):
         op = g.meta.get('op')
         if op == 'walk' and g.ops:
@@ -320,13 +322,27 @@ def o_c10(run):
 
 def o_c11(run):
     out = []
+    # "accepted" as the oracle sees it, request by request: the implementation's own report (the stored snapshot became
+    # this version), or - independent of it, and of the size of the acceptance window - an AddSnapshot answered with
+    # success for the client's LATEST version while the stored snapshot is another version: such a request meets every
+    # condition of acceptance whatever the window is, so it IS the most recently accepted snapshot from then on.
+    mine, latest_of = {}, {}
     for g, pd, praw, st in iterate(run):
         ops = g.ops
         for k, r in enumerate(ops):
+            c = r.client
+            if c not in mine and st.snap.get(c) is not None:
+                mine[c] = st.snap.get(c)
+            if c not in latest_of and st.acc[c]:
+                latest_of[c] = st.acc[c][-1][0]
+            if r.op == 'av' and r.i_out[0] == 'ok':
+                latest_of[c] = r.i_out[1]
+            if r.op == 'as' and r.i_out[0] == 'ok':
+                if r.i_out[1] == '1' or (r.arg == latest_of.get(c) and r.arg != NIL and (mine.get(c) or (None,))[0] != r.arg):
+                    mine[c] = (r.arg, bodykey(r))
             if r.op != 'gs':
                 continue
-            c = r.client
-            s = st.snap.get(c)
+            s = mine.get(c)
             if r.i_out[0] in ('none', 'nsc'):
                 if s is not None:
                     out.append(fail('C11: GetSnapshot returns the most recently accepted snapshot', r, f'expected {s[0]}, got {r.i_out}'))
@@ -414,6 +430,8 @@ def o_c12_urgency(run):
 
 def o_c18(run):
     out = []
+    if str(run.setup).startswith('grammar'):
+        return out          # malformed-request runs: judged by the refused-request oracle (o_c15, relabelled in C18's plan)
     for g, pd, praw, st in iterate(run):
         if not g.dumps:
             continue
@@ -421,7 +439,14 @@ def o_c18(run):
         for r in g.ops:
             if r.op == 'av' and r.i_out[0] == 'ok': mutating = True
             if r.op == 'as' and r.i_out[0] == 'ok' and r.i_out[1] == '1':
-                mutating = True      # the implementation replaced the snapshot (whether it should have is C10's business)
+                # the implementation replaced the snapshot. Whether it should have is C10's business - except when the
+                # version is one that ANOTHER client was given and is neither one of this client's accepted versions nor the
+                # parent its chain started from: such a request is declined whatever the window is, so it must leave the
+                # state alone
+                foreign = any(oc != r.client and r.arg in st.chain(oc) for oc in list(st.acc))
+                own = r.arg in st.chain(r.client) or r.arg == st.base(r.client) or any(x.op == 'av' and x.client == r.client and x.i_out[0] == 'ok' and x.i_out[1] == r.arg for x in g.ops)
+                if own or not foreign:
+                    mutating = True
             if r.op in ('create', 'reopen'): mutating = True
             if r.op == 'av' and r.i_out[0] == 'nsc': pass
         if mutating or not g.ops:
@@ -580,9 +605,9 @@ def o_c16(run):
 def o_c20(run):
     out = []
     for r in run.recs:
-        if r.ws[0] != 'http':
+        if r.ws[0] not in ('http', 'xhttp'):
             continue
-        ih = r.i_out[1] if isinstance(r.i_out, tuple) and r.i_out[0] == 'http' else parse_http_obs(r.impl)
+        ih = r.i_out[1] if r.ws[0] == 'http' and isinstance(r.i_out, tuple) and r.i_out[0] == 'http' else parse_http_obs(r.impl)
         if ih is None or ih.get('status') == 'panic':
             continue
         cc = unhex(ih.get('cc', '-'))
